@@ -98,6 +98,7 @@ struct WBXMLParser_s {
     WBXMLVersion          version;         /**< WBXML Version field specified in WBXML document */
     WB_UTINY              tagCodePage;     /**< Current Tag Code Page */
     WB_UTINY              attrCodePage;    /**< Current Attribute Code Page */
+    WB_ULONG              nesting;         /**< Current nesting depth of elements */
 };
 
 
@@ -210,6 +211,7 @@ WBXML_DECLARE(WBXMLParser *) wbxml_parser_create(void)
     parser->pos = 0;
     parser->tagCodePage = 0;
     parser->attrCodePage = 0;
+    parser->nesting = 0;
 
     return parser;
 }
@@ -429,6 +431,7 @@ static void wbxml_parser_reinit(WBXMLParser *parser)
     parser->pos             = 0;
     parser->tagCodePage     = 0;
     parser->attrCodePage    = 0;    
+    parser->nesting         = 0;
 }
 
 
@@ -1451,8 +1454,15 @@ static WBXMLError parse_content(WBXMLParser *parser, WBXMLBuffer **result)
     if ( is_token(parser, WBXML_SWITCH_PAGE) )
       return parse_switch_page(parser, WBXML_TAG_TOKEN);
 
-    /** @note We have recurrency here ! */
-    return parse_element(parser);
+    /** @note We have recurrency here ! (so limit the depth: a hostile document must not exhaust the stack) */
+    if (parser->nesting >= WBXML_MAX_NESTING_DEPTH)
+        return WBXML_ERROR_NESTING_TOO_DEEP;
+
+    parser->nesting++;
+    ret = parse_element(parser);
+    parser->nesting--;
+
+    return ret;
 }
 
 
